@@ -18,7 +18,7 @@ VERIF = os.path.dirname(os.path.dirname(os.path.abspath(__file__)))
 DRIVER = os.path.join(VERIF, 'driver', 'instantiate.cpp')
 CACHE = os.path.join(VERIF, '.cache')
 MPI_INC = '/usr/lib/x86_64-linux-gnu/openmpi/include'
-CACHE_VERSION = 7
+CACHE_VERSION = 11
 
 
 class AnalysisBroken(Exception):
@@ -362,6 +362,8 @@ class Builder:
         # pass 1: collect declarations
         for o in objs:
             self.top(o)
+        self.fix_template_template_args()
+        self.propagate_virtual()
         # pass 2: lower bodies (needs hep id set for callee classification)
         low = ir.Lowerer(self.p)
         for f in list(self.p.funcs.values()):
@@ -372,6 +374,52 @@ class Builder:
             f.raw = None
         self.p.unknown_kinds = low.unknown
         self.p.goto_sites = low.goto_sites
+
+    def propagate_virtual(self):
+        """`override` without the `virtual` keyword: a method is virtual if a method of the same
+        name in a (transitive) base class is."""
+        def all_bases(r, seen):
+            for b in r.bases:
+                br = self.p.record_of_type(b)
+                if br is not None and br.id not in seen:
+                    seen.add(br.id)
+                    yield br
+                    for x in all_bases(br, seen):
+                        yield x
+        for r in self.p.records.values():
+            if r.is_pattern:
+                continue
+            vnames = set()
+            for br in all_bases(r, set()):
+                vnames |= set(m.name for m in br.methods if m.is_virtual and m.kind == 'method')
+            for m in r.methods:
+                if m.kind == 'method' and m.name in vnames:
+                    m.is_virtual = True
+
+    def fix_template_template_args(self):
+        """Template template arguments are not printed by the JSON dumper: recover the class
+        template names from the Itanium mangling (<length><identifier>)."""
+        pats = [r for r in self.p.records.values() if r.is_pattern and r.name]
+        for f in self.p.funcs.values():
+            if '<tmpl>' not in f.targs or not f.mangled:
+                continue
+            pos = []
+            for r in pats:
+                tag = 'NS_%d%sE' % (len(r.name), r.name)
+                i = f.mangled.find(tag)
+                if i >= 0:
+                    pos.append((i, 'hep::' + r.name))
+            pos.sort()
+            names = [n for _, n in pos]
+            k = 0
+            old = list(f.targs)
+            for idx, t in enumerate(f.targs):
+                if t == '<tmpl>' and k < len(names):
+                    f.targs[idx] = names[k]
+                    k += 1
+            if not f.is_pattern:
+                f.qualname = f.qualname.replace('<' + ', '.join(old) + '>',
+                                                '<' + ', '.join(f.targs) + '>')
 
     def top(self, o):
         kind = o.get('kind')
@@ -515,6 +563,7 @@ class Builder:
         f.type = norm_type(o.get('type', {}).get('qualType'), self.numeric)
         f.is_const = bool(f.type) and re.search(r'\)\s*const', f.type) is not None
         f.targs = targ_string(o, self.numeric)
+        f.mangled = o.get('mangledName')
         f.loc = o.get('_loc')
         e = o.get('_e')
         f.end_line = e[1] if e else None
